@@ -1,12 +1,19 @@
 #!/bin/bash
 # Applies every stored seeded change in turn and runs the checks its meta.json lists under detected_by (quick tier);
-# prints one line per seed; exit 1 if any is no longer detected.  /repo is restored after each.
+# prints one line per seed: ok (every listed check reports it), PART (some do), LOST (none does);
+# exit 1 unless every line is ok.  /repo is restored after each.
 cd /verif
 bad=0
 for d in seeded/*/; do
   n=$(basename $d)
-  out=$(tools/recheck_seed.sh $n 2>&1)
-  if echo "$out" | grep -q "exit=1 violations=[1-9]"; then echo "ok   $n  $(echo "$out" | tr '\n' ' ' | cut -c1-150)"; else echo "LOST $n  $(echo "$out" | tr '\n' ' ' | cut -c1-200)"; bad=1; fi
+  out=$(timeout 1500 tools/recheck_seed.sh $n 2>&1)
+  total=$(echo "$out" | grep -c "check C")
+  hit=$(echo "$out" | grep -c "exit=1 violations=[1-9]")
+  line=$(echo "$out" | tr '\n' ' ' | cut -c1-200)
+  if [ "$total" -gt 0 ] && [ "$hit" -eq "$total" ]; then echo "ok   $n  $line"
+  elif [ "$hit" -gt 0 ]; then echo "PART $n  $line"; bad=1
+  else echo "LOST $n  $line"; bad=1; fi
+  git -C /repo checkout -q -- . 2>/dev/null
 done
 git -C /repo status --short | head -3
 exit $bad
